@@ -105,6 +105,44 @@ def marked_rules(ck):
                   "the child list of node `%s` is changed but the origin of that node is not cleared (cleared indices: %s): freeze() reuses the persistent original with the old children" % (vn.get(idx, idx), sorted(set(vn.get(i2, str(i2)) for _, i2 in cleared))), f.loc(changes[0]))
     ck.floor("DEFUSE", "child lists changed through make_owned", nch, 3)
 
+    # freezing reuses the persistent original of a node (`(false, origin)`) only when neither its value nor any child changed
+    f = getfn(ck, "sc", E, LL + "MutableTrie::freeze")
+    if f:
+        nre = 0
+        rem = f.calls(r"HashMap::<.*>::remove$")
+        for (bi, t) in f.calls(r"HashMap::<.*>::insert$"):
+            o = f.origins(t["args"][2], deep=False) if len(t["args"]) > 2 else set()
+            if not (("field", "origin") in o and ("lit", 0) in o):
+                continue
+            nre += 1
+            cond = rules.conditions_at(f, bi)
+            fv = [v for (k, names, v) in cond if k == "call:freeze_value"]
+            ch = [v for (k, names, v) in cond if k in ("call:remove", "call:unwrap")]
+            need_children = any(f.dominates(rb, bi) for (rb, _) in rem)
+            ok = fv == [False] and (not need_children or (ch and not any(ch)))
+            ck.ob("DOM", f.path, "origin-reused-only-if-unchanged#%d" % nre, ok,
+                  "the persistent original is reused only when the value is unchanged%s" % (" and no child changed" if need_children else "") if ok else
+                  "the persistent original of a node is reused under (value changed: %s, child changed: %s): a changed node is frozen as its old self" % (fv, ch), f.loc(bi))
+        ck.floor("DOM", "origin reuse sites in freeze", nre, 2)
+
+    # path compression keeps the tree canonical: a node is merged into its only child exactly when it has no value and exactly
+    # one child (all three collapse sites of delete / delete_prefix)
+    ncol = 0
+    for name in ("delete", "delete_prefix"):
+        f = getfn(ck, "sc", E, LL + "MutableTrie::" + name)
+        if not f:
+            continue
+        for (bi, t) in f.calls(r"prepend_parts$"):
+            ncol += 1
+            cond = rules.conditions_at(f, bi)
+            one = [v for (k, names, v) in cond if k == "cmp:Eq" and "len" in names and "lit1" in names]
+            hv = [v for (k, names, v) in cond if k == "call:make_owned"]
+            ok = bool(one) and one[-1] is True and not any(hv)
+            ck.ob("DOM", f.path, "collapse-iff-no-value-and-one-child#%d" % ncol, ok,
+                  "the node is merged into its child under `children.len() == 1`%s" % (" and no value" if hv else " (its value was just removed)") if ok else
+                  "a node is merged into a child under (one child: %s, has value: %s): the tree shape is no longer canonical / entries are lost" % (one, hv), f.loc(bi))
+    ck.floor("DOM", "path-compression sites", ncol, 3)
+
 
 def run(ck):
     ck.explanation = ("Decides checkpoint completeness (every table length recorded, every table truncated with its own field) and "
@@ -260,6 +298,18 @@ def run(ck):
                 ck.ob("DOM", f.path, "normalized-before:" + t["f"]["path"].split("::")[-1], ok,
                       "normalize(inner.root) dominates the call" if ok else "`%s` runs on the shared trie without a preceding normalize(inner.root): changes of an abandoned generation are still on top and leak into what follows" % t["f"]["path"].split("::")[-1], f.loc(bi))
     ck.floor("DOM", "owner-side uses of the locked shared trie", nuse, 3)
+    f = getfn(ck, "sc", E, API + "MutableState::make_fresh_generation")
+    if f:
+        ng_calls = f.calls(r"low_level::MutableTrie::new_generation$")
+        aggs = [(bi, st["rv"]) for bi in sorted(f.reachable()) for st in f.stmts(bi) if st.get("rv", {}).get("k") == "agg" and st["rv"].get("adt", "").endswith("api::MutableStateInner")]
+        for (bi, rv) in aggs:
+            if not any(f.dominates(nb, bi) for (nb, _) in ng_calls):
+                continue        # the first generation of a state that had no inner trie yet starts at the literal root
+            i = rv["fields"].index("root") if "root" in rv.get("fields", []) else 0
+            o = f.origins(rv["ops"][i], deep=True)
+            ok = ("field", "root") in o and ("lit", 1) in o and any(a[0] == "bin" and a[1].startswith("Add") for a in o)
+            ck.ob("DEFUSE", f.path, "child-generation-is-root+1", ok, "the handle of the new generation carries root + 1" if ok else
+                  "the handle returned for the new generation does not carry root + 1: it normalises the shared trie to the wrong generation", f.loc(bi))
     # and nothing but the owner starts generations
     ng = set()
     for p0 in sorted(c.paths()):
